@@ -113,6 +113,8 @@ class MemFS:
         def read_asm(filename):
             if filename not in fs.files:
                 raise FileNotFoundError(2, "No such file or directory", filename)
+            if isinstance(fs.files[filename], BaseException):
+                raise fs.files[filename]           # e.g. IsADirectoryError / PermissionError entries
             return list(fs.files[filename])
 
         def read_bin(filename):
